@@ -781,3 +781,57 @@ fn find_data_search() {
     }
     println!("NO-WITNESS find_data_search");
 }
+
+/// clauses of u_annotate / StoreFor::insert  (C14): a failing annotate() leaves the store observably unchanged.  13 failing calls on
+/// a small store; the observable state is the number of annotations, text selections, datasets, keys and data items plus every
+/// id.  The combinations recorded as known finding K1 (a valid NEW target with data or an id that is rejected afterwards) are
+/// read from known_findings.txt and reported as KNOWN.
+#[test]
+fn find_annotate_failures() {
+    let known = known_keys("find_annotate_failures");
+    let build = || -> AnnotationStore {
+        let mut store = AnnotationStore::default()
+            .with_resource(TextResourceBuilder::new().with_id("r").with_text("Hello world")).unwrap()
+            .with_dataset(AnnotationDataSetBuilder::new().with_id("d")).unwrap();
+        store.annotate(AnnotationBuilder::new().with_id("A1").with_target(SelectorBuilder::textselector("r", Offset::simple(0, 5))).with_data_with_id("d", "k", "v", "D1")).unwrap();
+        store
+    };
+    let snapshot = |s: &AnnotationStore| -> String {
+        let mut keys = 0; let mut data = 0;
+        for ds in s.datasets() { keys += ds.keys().count(); data += ds.data().count(); }
+        format!("annotations={} textselections={} datasets={} keys={} data={} ids={:?}", s.annotations().count(), s.resources().map(|r| r.textselections().count()).sum::<usize>(), s.datasets().count(), keys, data,
+                s.annotations().map(|a| a.id().map(|x| x.to_string())).collect::<Vec<_>>())
+    };
+    let existing = || SelectorBuilder::textselector("r", Offset::simple(0, 5));
+    let fresh = || SelectorBuilder::textselector("r", Offset::simple(6, 11));
+    let cases: Vec<(&str, Box<dyn Fn() -> AnnotationBuilder<'static>>)> = vec![
+        ("no target", Box::new(|| AnnotationBuilder::new().with_data("d", "k", "w"))),
+        ("unknown resource", Box::new(|| AnnotationBuilder::new().with_target(SelectorBuilder::textselector("nope", Offset::simple(0, 1))).with_data("d", "k", "w"))),
+        ("offset beyond the text", Box::new(|| AnnotationBuilder::new().with_target(SelectorBuilder::textselector("r", Offset::simple(5, 1000))).with_data("d", "k", "w"))),
+        ("offset end before begin", Box::new(|| AnnotationBuilder::new().with_target(SelectorBuilder::textselector("r", Offset::simple(8, 3))).with_data("d", "k", "w"))),
+        ("unknown target annotation", Box::new(|| AnnotationBuilder::new().with_target(SelectorBuilder::annotationselector("nope", None)).with_data("d", "k", "w"))),
+        ("unknown dataset selector", Box::new(|| AnnotationBuilder::new().with_target(SelectorBuilder::datasetselector("nope")).with_data("d", "k", "w"))),
+        ("nested complex selector after a new first part", Box::new(move || AnnotationBuilder::new().with_target(SelectorBuilder::multiselector(vec![SelectorBuilder::textselector("r", Offset::simple(6, 11)), SelectorBuilder::compositeselector(vec![SelectorBuilder::textselector("r", Offset::simple(0, 5)), SelectorBuilder::resourceselector("r")])])).with_data("d", "k", "w"))),
+        ("complex selector, second part unknown, first part existing", Box::new(|| AnnotationBuilder::new().with_target(SelectorBuilder::multiselector(vec![SelectorBuilder::textselector("r", Offset::simple(0, 5)), SelectorBuilder::textselector("nope", Offset::simple(0, 1))])).with_data("d", "k", "w"))),
+        ("existing target, unknown data reference", Box::new(move || AnnotationBuilder::new().with_target(existing()).with_existing_data("d", "nope"))),
+        ("existing target, duplicate annotation id, existing data", Box::new(|| AnnotationBuilder::new().with_id("A1").with_target(SelectorBuilder::textselector("r", Offset::simple(0, 5))).with_existing_data("d", "D1"))),
+        ("new target, unknown data reference", Box::new(move || AnnotationBuilder::new().with_target(fresh()).with_existing_data("d", "nope"))),
+        ("new target, duplicate annotation id", Box::new(|| AnnotationBuilder::new().with_id("A1").with_target(SelectorBuilder::textselector("r", Offset::simple(6, 11))).with_existing_data("d", "D1"))),
+        ("existing target, new data, duplicate annotation id", Box::new(|| AnnotationBuilder::new().with_id("A1").with_target(SelectorBuilder::textselector("r", Offset::simple(0, 5))).with_data("d", "k2", "new"))),
+    ];
+    for (name, mk) in &cases {
+        let mut store = build();
+        let before = snapshot(&store);
+        let r = std::panic::catch_unwind(std::panic::AssertUnwindSafe(|| store.annotate(mk())));
+        let problem = match r {
+            Err(_) => Some("panic".to_string()),
+            Ok(Ok(_)) => None,   // not a failing call on this tree: nothing to check
+            Ok(Err(_)) => { let after = snapshot(&store); if after != before { Some(format!("before: {} / after: {}", before, after)) } else { None } }
+        };
+        if let Some(p) = problem {
+            if known.iter().any(|k| k == name) { println!("KNOWN {}", name); }
+            else { println!("WITNESS {{\"clause\":\"a failing annotate() leaves the store unchanged\",\"call\":{:?},\"problem\":{:?}}}", name, p); return; }
+        }
+    }
+    println!("NO-WITNESS find_annotate_failures");
+}
